@@ -131,3 +131,10 @@ class Ambiguous:
 
 def mkq(v):
     return Q(v)
+
+
+class MatStr(str):
+    """A string with a matrix-multiplication operator (so that a continuation line can start with `@`)."""
+
+    def __matmul__(self, other):
+        return str(self) + str(other)
